@@ -14,7 +14,7 @@ INFO = dict(
         "[o symbolic, target in 0..L+2], tell(); detection: 88..96-byte PE scaffold (symbolic Machine/e_lfanew window, symbolic "
         "nonce) behind stubs of 0/5/9 bytes ending in the ff ff ff marker and/or carrying a consistent size field; fully symbolic "
         "files of 0..10 bytes are rejected (pe.find_mz_offset cut to None, justified by per-(size, offset) lemma obligations of the same check; uncut for 0/5/7 bytes)",
-        thorough="plaintext lengths {0..9, 11, 13}, stubs 0/4/7, all op sequences of length <=2, length 3 on two plaintext/stub combinations, selection of length 4",
+        thorough="plaintext lengths {0..9, 11, 13}, stubs 0/7, all op sequences of length <=2, length 3 on two plaintext/stub combinations, selection of length 4",
     ),
     outside="stages in which the size relation or the ff ff ff marker also holds at an offset BEFORE the true one (ambiguous by construction: the self-synchronising decoding makes such a candidate pass the MZ validation; candidates after the true offset are inside the claim; "
     "stated validity predicate of the detection harness); plaintexts longer than the bound; seeking before the first plaintext byte (undefined for the view); writes; "
@@ -183,7 +183,7 @@ def instances(tier):
     q = tier == "quick"
     out = []
     Ls = (0, 1, 2, 3, 4, 5, 7, 9) if q else (0, 1, 2, 3, 4, 5, 6, 7, 8, 9, 11, 13)
-    stubs = (0, 3) if q else (0, 4, 7)
+    stubs = (0, 3) if q else (0, 7)
     seqs = []
     for k in (1, 2):
         seqs += list(itertools.product(OPS, repeat=k))
